@@ -13,6 +13,15 @@ macro_rules! assert_ne { ($a:expr, $b:expr $(, $($rest:tt)*)?) => { assert!($a !
 macro_rules! debug_assert_eq { ($a:expr, $b:expr $(, $($rest:tt)*)?) => { debug_assert!($a == $b) }; }
 // repository macro (block_parser.rs): the run-time adjacency check becomes a static obligation
 macro_rules! debug_assert_adjacent { ($s:expr) => { crate::check_adjacent($s) }; }
+// repository macro `label!` (src/error.rs): builds (span.to_owned().into(), message.into()); shadowed by two
+// trusted constructors that return the same pair (see mod error)
+macro_rules! label {
+    ($span:expr $(,)?) => { crate::error::mk_label($span) };
+    ($span:expr, $message:expr $(,)?) => { crate::error::mk_label_msg($span, $message) };
+    ($span:expr, $fmt:literal, $($arg:expr),+) => { crate::error::mk_label_msg($span, format!($fmt, $($arg),+)) };
+}
+// format!: the arguments are evaluated, the resulting String is unspecified
+macro_rules! format { ($fmt:literal $(, $arg:expr)* $(,)?) => { { $( let _ = &$arg; )* crate::error::fmt_opaque() } }; }
 
 /*@ macro src/lexer/mod.rs T
 @*/
@@ -179,6 +188,7 @@ pub open spec fn cur_off(ts: Seq<Token>, index: int) -> int { if index == 0 { ts
 } // verus!
 
 pub mod text {
+use std::borrow::Cow;
 use vstd::prelude::*;
 use vstd::string::StringSliceAdditionalSpecFns;
 use crate::*;
@@ -352,6 +362,18 @@ tags C04
 ret r
 spec:
         ensures r@ == self.frags()
+@*/
+    /// "the text is blank": assumed contract of is_text_empty (iterator `all` + str::trim, not under contract);
+    /// the only fact used is that a text without fragments is blank
+    pub uninterp spec fn blank(&self) -> bool;
+/*@ fn src/text.rs Text::is_text_empty stub
+ret r
+spec:
+        ensures r == self.blank(), self.frags().len() == 0 ==> r
+@*/
+/*@ fn src/text.rs Text::text_trimmed stub
+@*/
+/*@ fn src/text.rs Text::text_outer_trimmed stub
 @*/
 }
 } // verus!
@@ -554,8 +576,8 @@ pub assume_specification<'a, T, P: FnMut(&'a T) -> bool>[ <core::slice::Iter<'a,
     ensures
         r.is_some() ==> r.unwrap() < old(it).remaining().len()
             && pred.ensures((&vals(old(it).remaining())[r.unwrap() as int],), true)
-            && forall|i: int| 0 <= i < r.unwrap() ==> pred.ensures((&(#[trigger] vals(old(it).remaining())[i]),), false),
-        r.is_none() ==> forall|i: int| 0 <= i < old(it).remaining().len() ==> pred.ensures((&(#[trigger] vals(old(it).remaining())[i]),), false),
+            && forall|i: int| #![trigger vals(old(it).remaining())[i]] 0 <= i < r.unwrap() ==> pred.ensures((&vals(old(it).remaining())[i],), false),
+        r.is_none() ==> forall|i: int| #![trigger vals(old(it).remaining())[i]] 0 <= i < old(it).remaining().len() ==> pred.ensures((&vals(old(it).remaining())[i],), false),
 ;
 pub proof fn lemma_vals_as_ref<T>(s: Seq<T>) ensures vals(s.as_ref()) == s { assert(vals(s.as_ref()) =~= s); }
 } // verus!
@@ -668,7 +690,8 @@ tags C03 C04 C05 C17
 ret t
 spec:
         requires self.wf(), toks_ok(tokens@), tokens@.len() > 0 ==> offset == tokens@[0].span.s(),   // [C03]
-        ensures t.wf(),
+            gbnd(offset as int),
+        ensures t.wf(), gbnd(t.start_spec()), gbnd(t.end_spec()),     // [C04] the text's own span is a reportable location
             tokens@.len() == 0 ==> t.frags().len() == 0 && t.start_spec() == offset && t.end_spec() == offset,
             tokens@.len() > 0 ==> tokens@[0].span.s() <= t.start_spec() && t.end_spec() <= tokens@.last().span.e(),    // [C04]
             // every fragment lies inside the token range and is the input slice at its span
@@ -688,6 +711,7 @@ loop 0 it it:
                 end <= cur_off(tokens@, it.index@ as int),
                 gbnd(start as int), gbnd(end as int),     // [C04]
                 tokens@[0].span.s() <= start,
+                gbnd(t.start_spec()), gbnd(t.end_spec()),     // [C04]
                 t.frags().len() == 0 ==> t.start_spec() == tokens@[0].span.s(),
                 t.frags().len() > 0 ==> tokens@[0].span.s() <= t.start_spec(),
                 forall|k: int| 0 <= k < t.frags().len() ==> {
@@ -912,5 +936,91 @@ before `let start = tokens.first().unwrap().span.start();`:
     proof { lemma_mono(tokens@, 0, tokens@.len() - 1); }
 @*/
 } // verus!
+
+verus! {
+/*@ macro src/parser/mod.rs error
+@*/
+/*@ macro src/parser/mod.rs warning
+@*/
+} // verus!
+
+pub mod section {
+use vstd::prelude::*;
+use crate::*;
+use crate::block_parser::BlockParser;
+use crate::parser_ev::Event;
+verus! {
+/*@ fn src/parser/section.rs section
+tags C03 C04 C05 C07
+ret r
+spec:
+    requires old(block).wf(), old(block).cur() == 0,
+    ensures final(block).wf(), final(block).same(old(block)),
+        // [C05] a section event is returned only when the whole block was consumed, and then nothing else is emitted
+        r.is_some() ==> final(block).cur() == final(block).toks().len() && final(block).evs() == old(block).evs() && r.unwrap() is Section,
+        // [C07] the only diagnostic is one warning, exactly when something follows the closing `=`s
+        r.is_none() ==> (final(block).evs() == old(block).evs() || (final(block).evs().len() == old(block).evs().len() + 1 && final(block).evs().last() is Warning)),
+closure 0 `TokenKind` ret `b: bool`:
+        ensures b == (t == TokenKind::Eq)
+closure 1 `TokenKind` ret `b: bool`:
+        ensures b == (t != TokenKind::Eq)
+closure 2 `TokenKind` ret `b: bool`:
+        ensures b == (t == TokenKind::Eq)
+@*/
+} // verus!
+} // mod section
+
+pub mod metadata {
+use vstd::prelude::*;
+use crate::*;
+use crate::block_parser::BlockParser;
+use crate::parser_ev::Event;
+verus! {
+/*@ fn src/parser/metadata.rs metadata_entry
+tags C03 C04 C05 C07
+ret r
+inline or_else 0
+spec:
+    requires old(block).wf(), old(block).cur() == 0,
+    ensures final(block).wf(), final(block).same(old(block)),
+        // [C05] an entry is returned only when the whole block was consumed
+        r.is_some() ==> final(block).cur() == final(block).toks().len() && r.unwrap() is Metadata,
+        // [C07] at most one diagnostic is queued
+        final(block).evs() == old(block).evs() || (final(block).evs().len() == old(block).evs().len() + 1 && (final(block).evs().last() is Warning || final(block).evs().last() is Error)),
+closure 0 `TokenKind` ret `b: bool`:
+        ensures b == (t == TokenKind::Colon)
+@*/
+} // verus!
+} // mod metadata
+
+pub mod text_block {
+use vstd::prelude::*;
+use crate::*;
+use crate::block_parser::BlockParser;
+use crate::parser_ev::{Event, BlockKind};
+verus! {
+/*@ fn src/parser/text_block.rs parse_text_block
+tags C03 C04 C05
+inline and_then 0
+spec:
+    requires old(bp).wf(),
+    ensures final(bp).wf(), final(bp).same(old(bp)),
+        final(bp).cur() == final(bp).toks().len(),    // [C05] the whole block is consumed
+loop 0:
+        invariant bp.wf(), bp.same(old(bp)),
+        decreases bp.toks().len() - bp.cur()
+before `let tokens = bp.capture_slice(|bp| {`:
+        // (a closure inside a loop cannot use old() on its own &mut parameter in this Verus version:
+        //  its contract is stated against a ghost snapshot taken right before the call)
+        let ghost pre = *bp;
+closure 1 `&mut BlockParser` :
+        requires *old(bp) == pre, pre.wf() ensures final(bp).wf(), final(bp).same(&pre), final(bp).cur() >= pre.cur(),
+            final(bp).evs() == pre.evs(),
+            pre.cur() < pre.toks().len() ==> final(bp).cur() > pre.cur()
+closure 2 `TokenKind` ret `b: bool`:
+        ensures b == (t != TokenKind::Newline)
+@*/
+} // verus!
+} // mod text_block
 
 fn main() {}
